@@ -353,14 +353,15 @@ Definition h_stop_trial (k : skey) (id : N) : prog :=
         end))).
 
 Definition h_delete_trial (k : skey) (id : N) : prog :=
-  guard_study k (Call (CDeleteTrial k id) (fun r => expect_unit r (Ret RpEmpty))).
+  guard_study k (Acquire (LStudy k) (Call (CDeleteTrial k id) (fun r => expect_unit r (Release (LStudy k) (Ret RpEmpty))))).
 
 Definition h_update_metadata (k : skey) (smd : list kv) (tmd : list (N * kv)) : prog :=
   guard_study k
-    (Call (CUpdateMd k smd tmd) (fun r => match r with
-      | Ok _ => Ret RpEmpty
-      | Err ENotFound | Err EKey => Ret RpMdError     (* except KeyError: error_details *)
-      | Err e => Throw e end)).
+    (Acquire (LStudy k)
+      (Call (CUpdateMd k smd tmd) (fun r => match r with
+        | Ok _ => Release (LStudy k) (Ret RpEmpty)
+        | Err ENotFound | Err EKey => Release (LStudy k) (Ret RpMdError)     (* except KeyError: error_details *)
+        | Err e => Throw e end))).
 
 Definition h_get_operation (k : skey) (c n : N) : prog :=
   Call (CGetSop k c n) (fun r => match r with Ok (RSop o) => Ret (RpOp o) | Ok _ => Throw EOther | Err e => Throw e end).
@@ -452,8 +453,10 @@ Definition h_suggest (k : skey) (c : N) (count : nat) : prog :=
                let mine := filter (fun t => tstate_eqb (t_state t) ACTIVE && N.eqb (t_client t) c) all in
                if Nat.leb count (length mine) then finish_op k o false (firstn count mine)
                else
-                 let pool := filter (fun t => tstate_eqb (t_state t) REQUESTED) all in
-                 assign_loop k c (rev pool) (count - length mine) mine (fun out =>
+                Acquire (LStudy k) (Call (CListTrials k) (fun r4' => match r4' with
+                | Ok (RTrials all') =>
+                 let pool := filter (fun t => tstate_eqb (t_state t) REQUESTED) all' in
+                 assign_loop k c (rev pool) (count - length mine) mine (fun out => Release (LStudy k) (
                    if Nat.eqb (length out) count then finish_op k o false out
                    else
                      Call (CMaxTrialId k) (fun r5 => match r5 with
@@ -462,17 +465,18 @@ Definition h_suggest (k : skey) (c : N) (count : nat) : prog :=
                         Pythia (PSuggest k (count - length out)) (fun po =>
                           match po with
                           | PDeliver sugs smd tmd =>
-                            Call (CUpdateMd k smd tmd) (fun r6 => match r6 with
-                              | Err ENotFound | Err EKey => finish_op k o true []
+                            Acquire (LStudy k) (Call (CUpdateMd k smd tmd) (fun r6 => match r6 with
+                              | Err ENotFound | Err EKey => finish_op k o true []     (* the exception left the with block *)
                               | Err e => Throw e
-                              | Ok _ =>
+                              | Ok _ => Release (LStudy k) (Acquire (LStudy k) (
                                 create_loop k c (rev sugs) (count - length out) out (fun left_rev out' =>
-                                  remain_loop k (rev left_rev) (finish_op k o false out'))
-                              end)
+                                  remain_loop k (rev left_rev) (Release (LStudy k) (finish_op k o false out')))))
+                              end))
                           | PFail _ => finish_op k o true []
                           | PDecide _ _ _ => Throw EOther
                           end)
-                      end))
+                      end)))
+                | Ok _ => Throw EOther | Err e => Throw e end))
              | Ok _ => Throw EOther | Err e => Throw e end)))
           | Ok _ => Throw EOther
           | Err e => Throw e
@@ -507,9 +511,9 @@ Definition es_compute (k : skey) (id : N) : prog :=
      | Ok _ =>
       Pythia (PEarlyStop k id) (fun po => match po with
         | PDecide ds smd tmd =>
-          Call (CUpdateMd k smd tmd) (fun r2 => match r2 with
+          Acquire (LStudy k) (Call (CUpdateMd k smd tmd) (fun r2 => match r2 with
             | Err e => Throw e
-            | Ok _ =>
+            | Ok _ => Release (LStudy k) (
               decisions_loop k ds
                 (Call (CGetEs k id) (fun r3 => match r3 with
                    | Ok (REs e) =>
@@ -517,8 +521,8 @@ Definition es_compute (k : skey) (id : N) : prog :=
                      then Call (CUpdateEs k (mkEs id false (e_stop e))) (fun r4 => expect_unit r4
                             (Release (LOp k) (Ret (RpStop (e_stop e)))))
                      else Release (LOp k) (Ret (RpStop (e_stop e)))
-                   | Ok _ => Throw EOther | Err e => Throw e end))
-            end)
+                   | Ok _ => Throw EOther | Err e => Throw e end)))
+            end))
         | PFail e => Call (CUpdateEs k (mkEs id false false)) (fun r2 => expect_unit r2 (Throw e))
         | PDeliver _ _ _ => Throw EOther
         end)
